@@ -369,3 +369,71 @@ func VerifC20_NestedRead() {
 	tt, isI := m["t"].(int32)
 	vrt.Assert(isI && tt == int32(tv), "C20.nested-read.outer-field-after")
 }
+
+func init() { vrt.Register("VerifC20_MessageList", VerifC20_MessageList) }
+
+// VerifC20_MessageList: ReadAnyWithDesc of Outer{repeated Inner items=1; int32 t=2}, Inner{string y=1; bool z=2}
+// with CNT elements, with and without string copying: every element message is returned with its own fields.
+func VerifC20_MessageList() {
+	cnt := vrt.Param("CNT")
+	cp := vrt.Param("COPY") != 0
+	inner := proto.VerifNewMessage("Inner")
+	proto.VerifAddField(inner, 1, "y", "y", proto.VerifBasic(proto.STRING), false)
+	proto.VerifAddField(inner, 2, "z", "z", proto.VerifBasic(proto.BOOL), false)
+	proto.VerifBuild(inner)
+	outer := proto.VerifNewMessage("Outer")
+	proto.VerifAddField(outer, 1, "items", "items", inner, true)
+	proto.VerifAddField(outer, 2, "t", "t", proto.VerifBasic(proto.INT32), false)
+	proto.VerifBuild(outer)
+	ys := make([]byte, cnt)
+	zs := make([]bool, cnt)
+	var b []byte
+	for i := 0; i < cnt; i++ {
+		ys[i] = vrt.U8()
+		vrt.Assume(ys[i] < 0x80)
+		zs[i] = vrt.Bool()
+		var ib []byte
+		ib = gpw.AppendBytes(gpw.AppendTag(ib, 1, gpw.BytesType), []byte{ys[i], byte('0' + i)})
+		zb := uint64(0)
+		if zs[i] {
+			zb = 1
+		}
+		ib = gpw.AppendVarint(gpw.AppendTag(ib, 2, gpw.VarintType), zb)
+		b = gpw.AppendBytes(gpw.AppendTag(b, 1, gpw.BytesType), ib)
+	}
+	tv := vrt.U8() & 0x7f
+	b = gpw.AppendVarint(gpw.AppendTag(b, 2, gpw.VarintType), uint64(tv))
+	p := BinaryProtocol{Buf: b}
+	v, err := p.ReadAnyWithDesc(outer, false, cp, true, true)
+	vrt.Assert(err == nil, "C20.message-list.noerror")
+	if err != nil {
+		return
+	}
+	vrt.Reach("read")
+	m, ok := v.(map[string]interface{})
+	vrt.Assert(ok, "C20.message-list.shape")
+	if !ok {
+		return
+	}
+	tt, isI := m["t"].(int32)
+	vrt.Assert(isI && tt == int32(tv), "C20.message-list.field-after")
+	if cnt == 0 {
+		return
+	}
+	xs, ok2 := m["items"].([]interface{})
+	vrt.Assert(ok2 && len(xs) == cnt, "C20.message-list.count")
+	if !ok2 || len(xs) != cnt {
+		return
+	}
+	for i := range xs {
+		im, ok3 := xs[i].(map[string]interface{})
+		vrt.Assert(ok3 && len(im) == 2, "C20.message-list.element-fields")
+		if !ok3 {
+			continue
+		}
+		y, isS := im["y"].(string)
+		vrt.Assert(isS && len(y) == 2 && y[0] == ys[i] && y[1] == byte('0'+i), "C20.message-list.element-string")
+		z, isB := im["z"].(bool)
+		vrt.Assert(isB && z == zs[i], "C20.message-list.element-bool")
+	}
+}
